@@ -3,6 +3,7 @@
 (* Exhaustive design check of the time-mask algebra (C01 time axis, C08).  *)
 (* Mode "values":   every assignment of the abstract value domain V to     *)
 (*                  every |beta_i|, |gamma_i| for K in 1..KMaxV            *)
+(* Mode "gamma":    K in {5,7,9} (<= KMaxV), every assignment of the gamma_i *)
 (* Mode "patterns": every (K in 1..KMaxP, d0 in 1..3, cut, lev)            *)
 (* One-step enumeration: every state is one mask assignment of one layer.  *)
 (***************************************************************************)
@@ -20,6 +21,12 @@ Init ==
     /\ IF Mode = "values"
        THEN /\ K \in 1..KMaxV /\ d0 = 1
             /\ b \in [0..K-1 -> V] /\ b[K-1] = One          \* the keep-alive elements are overridden anyway
+            /\ g \in [0..GLen(K)-1 -> V] /\ g[GLen(K)-1] = One
+       ELSE IF Mode = "gamma"
+       \* wide kernels (three or four dilation levels): every value assignment of the dilation parameters on top of an
+       \* open / once-cut receptive field (the sums of sub-threshold magnitudes over shared taps are what matters here)
+       THEN /\ K \in {5, 7, 9} /\ K <= KMaxV /\ d0 = 1
+            /\ \E cut \in 0..1 : b = BetaOfCut(K, cut)
             /\ g \in [0..GLen(K)-1 -> V] /\ g[GLen(K)-1] = One
        ELSE /\ K \in 1..KMaxP /\ d0 \in 1..3
             /\ \E cut \in 0..K-1, lev \in 0..GLen(K)-1 :
